@@ -21,7 +21,9 @@ Names == {[b |-> <<69, 83, 84>>, bad |-> FALSE, v |-> <<69, 83, 84>>],
           [b |-> <<65, 66, 67, 68, 69, 70, 71, 72>>, bad |-> TRUE, v |-> <<>>],
           [b |-> <<60, 65, 32, 66, 62>>, bad |-> TRUE, v |-> <<>>],
           [b |-> <<60, 65, 66, 67>>, bad |-> TRUE, v |-> <<>>]}
-Offsets == {[b |-> <<53, 58, 51, 48, 58, 49, 53, 58>>, bad |-> TRUE, v |-> 0],
+Offsets == {[b |-> <<53, 58, 51, 48, 58, 54, 48>>, bad |-> TRUE, v |-> 0],
+            [b |-> <<53, 58, 51, 48, 58, 53, 57>>, bad |-> FALSE, v |-> 19859],
+            [b |-> <<53, 58, 51, 48, 58, 49, 53, 58>>, bad |-> TRUE, v |-> 0],
             [b |-> <<53, 58, 58, 51, 48>>, bad |-> TRUE, v |-> 0],
             [b |-> <<53>>, bad |-> FALSE, v |-> 18000],
             [b |-> <<48, 53>>, bad |-> FALSE, v |-> 18000],
@@ -61,7 +63,10 @@ Days == {[b |-> <<77, 51, 46, 50, 46, 48>>, bad |-> FALSE, v |-> <<"M", 3, 2, 0>
          [b |-> <<77, 48, 46, 49, 46, 48>>, bad |-> TRUE, v |-> <<"X">>],
          [b |-> <<77, 51, 46, 48, 46, 48>>, bad |-> TRUE, v |-> <<"X">>],
          [b |-> <<>>, bad |-> TRUE, v |-> <<"X">>]}
-TimesC == {[b |-> <<47, 50, 58, 48, 48, 58, 48, 48, 58>>, pbad |-> TRUE, p |-> 0, ebad |-> TRUE, e |-> 0],
+TimesC == {[b |-> <<47, 50, 58, 48, 48, 58, 54, 48>>, pbad |-> TRUE, p |-> 0, ebad |-> TRUE, e |-> 0],
+           [b |-> <<47, 50, 58, 48, 48, 58, 53, 57>>, pbad |-> FALSE, p |-> 7259, ebad |-> FALSE, e |-> 7259],
+           [b |-> <<47, 49, 54, 55, 58, 53, 57, 58, 53, 57>>, pbad |-> TRUE, p |-> 0, ebad |-> FALSE, e |-> 604799],
+           [b |-> <<47, 50, 58, 48, 48, 58, 48, 48, 58>>, pbad |-> TRUE, p |-> 0, ebad |-> TRUE, e |-> 0],
            [b |-> <<47, 43>>, pbad |-> TRUE, p |-> 0, ebad |-> TRUE, e |-> 0],
            [b |-> <<>>, pbad |-> FALSE, p |-> 7200, ebad |-> FALSE, e |-> 7200],
            [b |-> <<47, 50>>, pbad |-> FALSE, p |-> 7200, ebad |-> FALSE, e |-> 7200],
